@@ -21,10 +21,10 @@ from typing import Callable, Optional
 from ..common import Check, InfraError, LEAN, CORPUS, run_cmd, first_diff
 from . import simulgen as sg
 
-N_FULL_VALS = 6  # valuations per design on which the (expensive) per-cycle validator of the theory is evaluated
+N_FULL_VALS = 6  # valuations per design on which the (expensive) per-cycle validator of the theory is evaluated (thorough)
 
 
-SETTLE_TIMEOUT_S = 20
+SETTLE_TIMEOUT_S = 20  # CPU seconds
 
 
 class _Unsettled(Exception):
@@ -32,26 +32,27 @@ class _Unsettled(Exception):
 
 
 def _with_watchdog(seconds: int, fn, *args):
-    """run `fn(*args)` under a SIGALRM watchdog (main thread of the worker process)"""
+    """run `fn(*args)` under a watchdog on the CPU time of this process (ITIMER_VIRTUAL: a combinational loop
+    makes pysim spin, while a merely overloaded machine does not consume the budget)"""
     import signal
 
     def onalarm(signum, frame):
         raise _Unsettled()
 
     try:
-        old = signal.signal(signal.SIGALRM, onalarm)
+        old = signal.signal(signal.SIGVTALRM, onalarm)
     except ValueError:  # not in the main thread: no watchdog
         return fn(*args)
-    signal.alarm(seconds)
+    signal.setitimer(signal.ITIMER_VIRTUAL, seconds)
     try:
         return fn(*args)
     finally:
-        signal.alarm(0)
-        signal.signal(signal.SIGALRM, old)
+        signal.setitimer(signal.ITIMER_VIRTUAL, 0)
+        signal.signal(signal.SIGVTALRM, old)
 
 
 def eval_spec(spec: dict, monitor: Callable, n_random: int, max_bits: int, vseed, only_vals=None, full_static=False,
-              n_lean: int = 48) -> dict:
+              n_lean: int = 48, n_full: int = N_FULL_VALS) -> dict:
     """run the REAL code on one spec; lines for the Lean driver, the implementation's observation
     lines, the monitor's verdict, statistics.  The monitor sees every simulated valuation (all of them when
     the circuit has at most `max_bits` one-bit inputs); the Lean model is compared on `n_lean` of them
@@ -86,7 +87,7 @@ def eval_spec(spec: dict, monitor: Callable, n_random: int, max_bits: int, vseed
         obs = _with_watchdog(SETTLE_TIMEOUT_S + len(vals) // 40, sg.simulate, b, vals)
     except _Unsettled:
         # the real circuit does not settle in pysim: a combinational loop through run/ready/enable signals
-        out["viol"] = (f"the elaborated circuit does not settle in pysim within {SETTLE_TIMEOUT_S}s on the first valuations "
+        out["viol"] = (f"the elaborated circuit does not settle in pysim within {SETTLE_TIMEOUT_S} CPU seconds on the first valuations "
                        "(combinational loop through run/enable signals?)")
         return out
     out["nvals"] = len(vals)
@@ -101,7 +102,7 @@ def eval_spec(spec: dict, monitor: Callable, n_random: int, max_bits: int, vseed
     for pos, k in enumerate(idx):
         (bits, dv), o = vals[k], obs[k]
         l, e = sg.val_line(bits, dv), sg.impl_line(b, o)
-        if pos >= N_FULL_VALS:
+        if pos >= n_full:
             l, e = "w" + l[1:], e.replace(" hx=1 cons=1 hyp=1 ", " hx=- cons=- hyp=- ")
         out["lean_in"].append(l)
         out["impl_out"].append(e)
@@ -127,10 +128,11 @@ def _stats(b, obs) -> dict:
 
 def _work(args):
     gen, monitor, pid, index, seed, tier, n_random, max_bits, full_every, n_lean = args
+    n_full = 3 if tier == "quick" else N_FULL_VALS
     t0 = time.time()
     spec = gen(pid, index, seed, tier)
     try:
-        r = eval_spec(spec, monitor, n_random, max_bits, f"{pid}/{seed}/{index}", full_static=(index % full_every == 0), n_lean=n_lean)
+        r = eval_spec(spec, monitor, n_random, max_bits, f"{pid}/{seed}/{index}", full_static=(index % full_every == 0), n_lean=n_lean, n_full=n_full)
     except Exception as e:  # noqa: BLE001
         import traceback
 
@@ -200,7 +202,7 @@ def run_simul(ctx: Check, pid: str, gen: Callable, monitor: Callable, directed: 
     tm2 = time.time()
     n_random = ctx.pick(96, 400)
     max_bits = ctx.pick(8, 12)
-    n_lean = ctx.pick(40, 160)
+    n_lean = ctx.pick(32, 160)
 
     def replay_witness(w: dict) -> Optional[str]:
         specs = [w["spec"]] if "spec" in w else witness_specs(w["kind"])
@@ -244,14 +246,41 @@ def run_simul(ctx: Check, pid: str, gen: Callable, monitor: Callable, directed: 
         r["spec"], r["t_eval"] = d, 0
         results.append(r)
     jobs = [(gen, monitor, pid, i, ctx.seed, ctx.tier, n_random, max_bits, full_every, n_lean) for i in range(n)]
+    # the Lean driver is started on the cases that are finished while the real code still runs on the rest
+    lean_procs = ctx.pick(min(3, procs), procs)
+    ex = ThreadPoolExecutor(lean_procs)
+    futs: list = []  # (first index, number of cases, future)
+
+    def submit(first: int, batch: list):
+        if batch and not any("error" in r for r in batch):
+            flat = [l for r in batch for l in r["lean_in"]]
+            futs.append((first, len(batch), ex.submit(_lean_batch_retry, ctx, pid, flat)))
+
+    # (every start of `lean --run` costs seconds - much more on a loaded machine -, so few, large batches)
+    n_chunks = ctx.pick(2, 2 * procs)
     if procs > 1:
         with mp.get_context("fork").Pool(procs) as pool:
-            results += pool.map(_work, jobs, chunksize=max(1, n // (procs * 6)))
+            it = pool.imap(_work, jobs, chunksize=max(1, n // (procs * 6)))
+            step = max(1, (n + n_chunks - 1) // n_chunks)
+            first = 0
+            buf: list = list(results)
+            results = []
+            for r in it:
+                buf.append(r)
+                if len(buf) - (0 if first else len(pre)) >= step:
+                    submit(first, buf)
+                    results += buf
+                    first = len(results)
+                    buf = []
+            submit(first, buf)
+            results += buf
     else:
         results += [_work(j) for j in jobs]
+        submit(0, results)
     tm3 = time.time()
     errors = [r for r in results if "error" in r]
     if errors:
+        ex.shutdown(wait=False)
         raise InfraError(f"harness error on spec {errors[0]['spec'].get('tag')}: {errors[0]['error']}\n{errors[0]['trace']}")
 
     # ---- monitor verdicts
@@ -268,8 +297,15 @@ def run_simul(ctx: Check, pid: str, gen: Callable, monitor: Callable, directed: 
         ctx.count("monitor_failures", len(fails))
 
     # ---- Lean model on the same cases
-    lean_procs = ctx.pick(min(3, procs), procs)
-    outs = lean_outputs(ctx, pid, [r["lean_in"] for r in results], lean_procs)
+    outs: list = [None] * len(results)
+    for first, cnt, fut in futs:
+        flat = fut.result()
+        pos = 0
+        for k in range(first, first + cnt):
+            m = len(results[k]["lean_in"])
+            outs[k] = flat[pos : pos + m]
+            pos += m
+    ex.shutdown(wait=False)
     tm4 = time.time()
     ctx.note(f"wall: proof stage {tm1 - tm0:.1f}s, model build {tm2 - tm1:.1f}s, real code (procs={procs}) {tm3 - tm2:.1f}s, "
              f"Lean driver ({sum(len(r['lean_in']) for r in results)} lines, procs={lean_procs}) {tm4 - tm3:.1f}s")
@@ -345,6 +381,13 @@ def replay_simul(ctx: Check, pid: str, body: dict, monitor: Callable) -> Optiona
     r = eval_spec(spec, monitor, 200, 11, "replay", only_vals=vals if vals and vals[0] is not None else None)
     if r.get("viol"):
         return r["viol"]
+    if vals and vals[0] is not None:
+        # the manager creates merged transactions while iterating Python sets of objects: where priorities are
+        # undefined the winner among admissible branches may differ between runs, so the recorded valuation need
+        # not fail again; look at all / many valuations of the recorded circuit
+        r2 = eval_spec(spec, monitor, 600, 12, "replay-all")
+        if r2.get("viol"):
+            return r2["viol"]
     build_models(ctx)
     out = _lean_batch_retry(ctx, pid, r["lean_in"])
     d = first_diff(r["impl_out"], out)
